@@ -378,6 +378,19 @@ def cases(rng, tier):
     for _ in range(6 if tier == "quick" else 40):
         acts = [rng.choice([0, 0, 2, 3, 4, 5, 6, 7, 8]) for _ in range(rng.range(2, 4))]
         out.append(build_history(rng.below(3), acts, kind=4))
+    # kind 7: flush passes during which configurations are installed - by the appender being flushed (re-entrant) or
+    # by another thread before that appender's flush() returns; every (n, position, kind, m) for small n, m, then
+    # passes with several installs
+    for n in range(0, 5):
+        out.append([7, 50, n, []])
+        for pos in range(n):
+            for kind in (0, 1):
+                for m in (0, 1, 3, 6):
+                    out.append([7, 50, n, [[pos, kind, 60 + pos, m]]])
+    for _ in range(40 if tier == "quick" else 600):
+        n = rng.range(2, 6)
+        poss = rng.shuffle(list(range(n)))[:rng.range(2, min(n, 4))]
+        out.append([7, 50, n, [[p, rng.below(2), 60 + j, rng.below(7)] for j, p in enumerate(sorted(poss))]])
     # kind 6, long outages: the file is missing / unreadable for 255 .. 700 polls in a row, then a valid version
     # appears: the thread has kept polling all the time and applies it (any count of consecutive failures narrower
     # than the outage shows)
@@ -515,6 +528,12 @@ def compare(c, impl, model):
     k = c[0]
     if not isinstance(impl, list):
         return "implementation did not produce a result: %r" % (impl,)
+    if k == 7:
+        if impl != model:
+            return ("flush passes over a configuration of %d appenders with installs %r (pos, 0 re-entrant / 1 other thread, "
+                    "table, #appenders): flush calls (table, index) of the two passes = %r, one-snapshot passes prescribe %r"
+                    % (c[2], c[3], impl, model))
+        return None
     if k == 0:
         if len(c) > 6 and c[6] == 1:
             d = handler_oracle(c, impl)
@@ -609,6 +628,8 @@ def nontrivial(c):
         return True
     if k == 5:
         return len(c[2]) > 1
+    if k == 7:
+        return bool(c[3])
     return any(a not in (1,) for a in c[5])
 
 
@@ -622,6 +643,8 @@ def classify(c):
         return "drop-probe"
     if k == 5:
         return "global-facade swaps=%d" % (len(c[2]) - 1)
+    if k == 7:
+        return "flush-pass installs=%d" % len(c[3])
     return "%s fmt=%s len=%d" % ({3: "reload-step", 6: "reload-lockstep-thread"}.get(k, "reload-live"), ["yaml", "json", "toml"][c[1]], len(c[4]))
 
 
@@ -636,6 +659,9 @@ def describe(c):
         return {"kind": "stress", "shapes": len(c[1]), "params(loggers,swappers,min_records,swaps,run)": c[3]}
     if k == 2:
         return {"kind": "drop probe", "old": c[2], "new": c[3], "probe": c[4]}
+    if k == 7:
+        return {"kind": "flush pass, then a second one", "appenders": c[2],
+                "installs(position, 0 by the appender itself / 1 by another thread, table, appenders)": c[3]}
     if k == 5:
         return {"kind": "global logger behind the log facade", "config_sequence": [c[1][i][0] for i in c[2]],
                 "configs": c[1], "probes": len(c[3])}
